@@ -160,7 +160,7 @@ impl Prop for C12 {
             .boxed()
     }
     fn random_cases(&self, tier: Tier) -> u32 {
-        tier.pick(60_000, 1_000_000)
+        tier.pick(500_000, 5_000_000)
     }
     fn check(&self, case: &PartCase) -> Outcome {
         let mut out = Outcome::new();
